@@ -1,5 +1,6 @@
 import NodisVerif.Proofs.C20Finds
 import NodisVerif.Proofs.C20Keys
+import NodisVerif.Proofs.C20ZStoreEx
 /-
   C20 — The change feed replays on a replica.
 
@@ -22,9 +23,14 @@ import NodisVerif.Proofs.C20Keys
     live keys, cold values read through the backend; nothing shown is Go's nil string (`NoNil`; no API
     command creates one, it holds of the empty store and is preserved).
   * `Call`: the covered state-changing methods with their arguments; `Call.run` = what
-    `Driver.callApi` calls; `Call.info` = what the driver hands to `Feed.emission`; `Call.WF` =
-    argument side conditions (int64 deadlines/increments, lengths < 2^63, no NaN score);
-    `Call.Region` = the finding regions (decidable in the logical content of the key).
+    `Driver.callApi` calls; `Call.info` = what the driver hands to `Feed.emission` (for ZUnionStore /
+    ZInterStore: operands, weights, aggregate); `Call.WF` = argument side conditions (int64
+    deadlines/increments, lengths < 2^63, no NaN score); `Call.Region` = the finding regions
+    (decidable in the logical content of the key; for the sorted-set stores: of the operands).
+  * `zcoreSpec union K keys weights agg` (Proofs/C20ZStoreCore.lean): the result of ZUNION / ZINTER as a
+    function of what the operand names show (`K = lookup p now`): `none` = the call panics (an operand
+    of another type, ZINTER: an operand missing where it is checked), `some none` = unsupported,
+    `some (some items)` = the (score, member) items; `zstorePost items L` = the destination afterwards.
   * `Replay now r c res` := ∃ r', Feed.applyAll r now (Feed.emission c res.2 res.1.feed.reverse) = some r'
                                   ∧ Same now res.1 r'.
 -/
@@ -56,7 +62,7 @@ theorem fields_roundtrip (b : Bytes) (bs : List Bytes) (n : Int) (x : F64) (t : 
 /-
   Full statement: for every state-changing call c of the API, from `Same now p r` on a watched,
   drained primary, the replica can apply `Feed.emission` of the call and then shows the primary's
-  logical keyspace.  It fails inside `Call.Region` (witnesses below); it is proved for the 68 methods
+  logical keyspace.  It fails inside `Call.Region` (witnesses below); it is proved for the 70 methods
   of `Call` (list at the end of the file) outside the region.
 -/
 /-- one call: the replica applies, at the same time `now`, what the call hands to a watcher, and
@@ -210,6 +216,108 @@ theorem sadd_lpush_empty_emit :
     logical ((Call.lpush [107] []).run w0 0).1 0 = [([107], .list DsList.empty, 0)] :=
   Proofs.C20.sadd_lpush_empty_emit
 
+/-! ### ZUnionStore / ZInterStore: the replica re-executes the command -/
+
+/-- the two methods, stated on the API function: the record carries destination, operands, weights and
+    aggregate; the replica (same logical keyspace, any backend, any object identities) re-executes the
+    command on its own copies of the operands and ends with the primary's logical keyspace.  Covers: an
+    empty result (DEL record), the destination among the operands or holding another type, missing /
+    expired operands (`lookup … = none`), a failing call (nothing emitted, nothing changed).  This is
+    `replay_call_partial` for `Call.zunionStore` / `Call.zinterStore`. -/
+theorem replay_call_zstore_partial (union : Bool) (dst : Bytes) (keys : List Bytes) (weights : List F64) (agg : Bytes)
+    {now : Int} {p r : MState} (hs : Same now p r) (hl : p.listeners = true) (hfd : p.feed = [])
+    (hreg : ¬ ZStoreNaN (lookup p now) union keys weights agg) :
+    ∃ r', Feed.applyAll r now
+        (Feed.emission { method := if union then "ZUnionStore" else "ZInterStore", keys := keys, weights := weights,
+                         aggregate := agg }
+          (Api.zstore union p now dst keys weights agg).2 (Api.zstore union p now dst keys weights agg).1.feed.reverse)
+        = some r' ∧
+      Same now (Api.zstore union p now dst keys weights agg).1 r' :=
+  (zstore_main union hs hl hfd _ (by cases union <;> simp) dst keys weights agg rfl rfl rfl hreg).1
+
+/-- why: result and effect of the command are functions of the logical keyspace.  With `items` the
+    result computed from what the operands show, the destination afterwards shows `zstorePost items`
+    of what it showed before (nothing for an empty result; otherwise the sorted set built from the
+    items, under the deadline the destination had, none if it was created), every other name is
+    unchanged, and exactly one record is appended to the feed (DEL for an empty result) -/
+theorem zstore_effect (union : Bool) {s : MState} {now : Int} (h : StoreInv s now) (dst : Bytes) (keys : List Bytes)
+    (weights : List F64) (agg : Bytes) (items : List DsZSet.Item)
+    (he : zcoreSpec union (lookup s now) keys weights agg = some (some items)) :
+    (∀ k', lookup (Api.zstore union s now dst keys weights agg).1 now k' =
+      upd (lookup s now) dst (zstorePost items (lookup s now dst)) k') ∧
+    (s.listeners = true →
+      (Api.zstore union s now dst keys weights agg).1.feed = zstoreOp union dst items :: s.feed) :=
+  ⟨(zstore_look' union h dst keys weights agg items he).2.1,
+   fun hl => congrArg Prod.fst ((zstore_look' union h dst keys weights agg items he).2.2 hl)⟩
+
+/-- a failing call (an operand of another type; unsupported arithmetic) emits nothing and changes nothing -/
+theorem zstore_fails_silent (union : Bool) {s : MState} {now : Int} (h : StoreInv s now) (dst : Bytes)
+    (keys : List Bytes) (weights : List F64) (agg : Bytes)
+    (he : zcoreSpec union (lookup s now) keys weights agg = none ∨
+          zcoreSpec union (lookup s now) keys weights agg = some none) :
+    (Api.zstore union s now dst keys weights agg).1.feed = s.feed ∧
+    logical (Api.zstore union s now dst keys weights agg).1 now = logical s now :=
+  ⟨congrArg Prod.fst (zstore_fails union h dst keys weights agg he).fl,
+   logical_ext h.idxSorted (zstore_fails union h dst keys weights agg he).inv.idxSorted
+     (zstore_fails union h dst keys weights agg he).look⟩
+
+/-- region of the two methods: an aggregated score of the result is NaN.  Witness: ZUNIONSTORE d 1 k
+    WEIGHTS 0 where k holds a member with score +inf gives the destination the score NaN; the storage
+    invariant (every stored sorted set is NaN-free) fails on the primary afterwards, and `Same`
+    includes the invariant, so no replica state satisfies the conclusion. -/
+theorem replay_call_finding_zstore_nan :
+    (Call.zunionStore [100] [[107]] [0] []).Region (lookup wInf 0) ∧
+    lookup ((Call.zunionStore [100] [[107]] [0] []).run wInf 0).1 0 [100] =
+      some (.zset ⟨[([109], F64.qnan)], [(F64.qnan, [109])]⟩, 0) ∧
+    ¬ StoreInv ((Call.zunionStore [100] [[107]] [0] []).run wInf 0).1 0 ∧
+    ∀ r, ¬ Replay 0 r (Call.zunionStore [100] [[107]] [0] []).info ((Call.zunionStore [100] [[107]] [0] []).run wInf 0) :=
+  zstore_nan_finding
+
+/-- non-vacuity and shape of the record: on k = {m: 1.0}, l = {m: 2.0} (reached through the API),
+    ZUNIONSTORE d 2 k l is outside the region, hands over one record of type 34 carrying aggregate,
+    operands, separator (no weights), and leaves d = {m: 3.0} -/
+theorem zunionStore_example :
+    logical wZ2 0 = [([107], .zset ⟨[([109], 0x3ff0000000000000)], [(0x3ff0000000000000, [109])]⟩, 0),
+                     ([108], .zset ⟨[([109], 0x4000000000000000)], [(0x4000000000000000, [109])]⟩, 0)] ∧
+    ¬ (Call.zunionStore [100] [[107], [108]] [] []).Region (lookup wZ2 0) ∧
+    Feed.emission (Call.zunionStore [100] [[107], [108]] [] []).info
+        ((Call.zunionStore [100] [[107], [108]] [] []).run wZ2 0).2
+        ((Call.zunionStore [100] [[107], [108]] [] []).run wZ2 0).1.feed.reverse =
+      [{ typ := 34, key := [100], args := [Bytes.toHex [], Bytes.toHex [107], Bytes.toHex [108], "|"] }] ∧
+    lookup ((Call.zunionStore [100] [[107], [108]] [] []).run wZ2 0).1 0 [100] =
+      some (.zset ⟨[([109], 0x4008000000000000)], [(0x4008000000000000, [109])]⟩, 0) :=
+  Proofs.C20.zunionStore_example
+
+/-- the hypotheses of `replay_call_partial` hold for that call (primary = its own replica) -/
+example : (Call.zunionStore [100] [[107], [108]] [] []).WF ∧ Same 0 wZ2 wZ2 ∧ wZ2.listeners = true ∧ wZ2.feed = [] ∧
+    ¬ (Call.zunionStore [100] [[107], [108]] [] []).Region (lookup wZ2 0) :=
+  ⟨trivial, wZ2_ok.1, wZ2_ok.2.1, wZ2_ok.2.2, Proofs.C20.zunionStore_example.2.1⟩
+/-- ... hence (theorem) a replica applying the record shows d = {m: 3.0} too -/
+example : ∃ r', Feed.applyAll wZ2 0
+      [{ typ := 34, key := [100], args := [Bytes.toHex [], Bytes.toHex [107], Bytes.toHex [108], "|"] }] = some r' ∧
+    lookup r' 0 [100] = some (.zset ⟨[([109], 0x4008000000000000)], [(0x4008000000000000, [109])]⟩, 0) := by
+  obtain ⟨r', a, s⟩ := replay_call_partial (.zunionStore [100] [[107], [108]] [] []) trivial wZ2_ok.1 wZ2_ok.2.1
+    wZ2_ok.2.2 Proofs.C20.zunionStore_example.2.1
+  rw [Proofs.C20.zunionStore_example.2.2.1] at a
+  exact ⟨r', a, by rw [s.look]; exact Proofs.C20.zunionStore_example.2.2.2⟩
+
+/-- empty result, destination among the operands: on k = {m: 1.0}, l = {n: 2.0}, ZINTERSTORE k 2 k l
+    hands over a DEL record for k, and k is gone -/
+theorem zinterStore_empty_example :
+    ¬ (Call.zinterStore [107] [[107], [108]] [] []).Region (lookup wZ3 0) ∧
+    Feed.emission (Call.zinterStore [107] [[107], [108]] [] []).info
+        ((Call.zinterStore [107] [[107], [108]] [] []).run wZ3 0).2
+        ((Call.zinterStore [107] [[107], [108]] [] []).run wZ3 0).1.feed.reverse = [{ typ := 2, key := [107] }] ∧
+    (lookup wZ3 0 [107]).isSome = true ∧
+    lookup ((Call.zinterStore [107] [[107], [108]] [] []).run wZ3 0).1 0 [107] = none :=
+  Proofs.C20.zinterStore_empty_example
+
+/-- an operand of another type (k holds a string): nothing emitted, nothing changed -/
+theorem zunionStore_wrongtype_example :
+    ((Call.zunionStore [100] [[107]] [] []).run wStr 0).1.feed = [] ∧
+    ∀ k, lookup ((Call.zunionStore [100] [[107]] [] []).run wStr 0).1 0 k = lookup wStr 0 k :=
+  Proofs.C20.zunionStore_wrongtype_example
+
 /-! ### non-vacuity -/
 
 /-- a concrete run: SETEX k "5" 10 at t=1, APPEND k "6" at t=2, RENAME k k' at t=3 on the watched empty
@@ -260,12 +368,13 @@ theorem late_apply_finding :
       logical r' 20 = [([107], .hash [([103], [119])], 0)]) :=
   Proofs.C20.late_apply_finding
 
-/- COVERED by `replay_call_partial` / `replay_sequence_partial` (68 methods, `Call`):
+/- COVERED by `replay_call_partial` / `replay_sequence_partial` (70 methods, `Call`):
      Del Unlink Expire ExpirePX ExpireNX ExpireXX ExpireLT ExpireGT ExpireAt ExpireAtNX ExpireAtXX ExpireAtLT
      ExpireAtGT Rename RenameNX Persist Clear HClear ZClear | Set GetSet SetEX SetPX SetNX SetXX Incr IncrBy Decr
      DecrBy IncrByFloat SetBit Append SetRange MSet | LPush RPush LPop RPop LInsert LPushX RPushX LRem LSet LTrim
      LPopRPush RPopLPush | HSet HDel HIncrBy HIncrByFloat HSetNX HMSet | SAdd SRem SPop SMove SDiffStore
-     SInterStore SUnionStore | ZAdd ZAddXX ZAddNX ZAddLT ZAddGT ZIncrBy ZRem ZRemRangeByRank ZRemRangeByScore.
+     SInterStore SUnionStore | ZAdd ZAddXX ZAddNX ZAddLT ZAddGT ZIncrBy ZRem ZRemRangeByRank ZRemRangeByScore
+     ZUnionStore ZInterStore.
    Regions (`Call.Region`, a predicate of the logical content of the key):
      * Incr/IncrBy/Decr/DecrBy: key missing and the counter operation fails (`replay_call_finding`);
      * SetRange: key missing and the call panics (`replay_call_finding_setRange`);
@@ -275,9 +384,16 @@ theorem late_apply_finding :
      * ZRem*: the key holds an *empty* sorted set and nothing is removed (the primary unlinks the key
        silently; not reachable through the API, no concrete witness proved);
      * ZIncrBy: the resulting score is NaN (inf + -inf, or a NaN increment through the embedded API): the
-       sorted-set invariant does not cover NaN scores; no witness.
-   NOT COVERED (no theorem, no counterexample): ZUnionStore / ZInterStore; the multi-key readers
-     Scan, ZUnion, ZInter are not in `Read` (SDiff/SInter/SUnion are proved read-only: `SetReader`).
+       sorted-set invariant does not cover NaN scores; no witness;
+     * ZUnionStore / ZInterStore: an aggregated score of the result is NaN (`ZStoreNaN`: +inf · 0,
+       +inf + -inf, a NaN weight through the embedded API): the stored sorted set violates the storage
+       invariant, which `Same` includes (`replay_call_finding_zstore_nan`; whether the logical keyspaces
+       still agree inside the region is not decided).  Everything else is covered: empty result,
+       destination among the operands / of another type / missing, missing or expired operands, failing
+       calls (`zstore_fails_silent`).
+   NOT COVERED (no theorem, no counterexample): the multi-key readers Scan, ZUnion, ZInter are not in `Read`
+     (SDiff/SInter/SUnion are proved read-only: `SetReader`; the computations of ZUnion / ZInter are proved
+     read-only as part of the store commands: `zcore_spec`).
    Later replica time: `late_apply_finding` — a record applied after a deadline it does not carry has
      passed diverges; batches are applied at the time of their call (`applyBatches`), and the result
      holds at every later time (`same_later`). -/
